@@ -1,5 +1,4 @@
-import OW.Proofs.WrapperNd
-import OW.Props.C04
+import OW.Proofs.WrapperNdRefine
 /-!
 C04 (n-d level) — the view algebra of the wrapper template yields the cell views the list-level semantics assumes.
 
@@ -352,6 +351,340 @@ theorem write_invisible_to_other_cells {h : Heap α} {parameters inputs states o
     rw [cell_setStore, if_neg (by rintro ⟨e1, _⟩; exact hro (Or.inl e1.symm)), hc] at hc'
     injection hc' with hc'
     rw [hx, hx', hc']
+
+/-! ### the template's own index vectors -/
+
+/-- **runDims_roots.** The preamble of `Run` on root arrays `inputs [nIn,nI,T]`, `states [N,nS]`, `outputs [M,nO,T']`
+does not panic and computes the numbers and shared index vectors used above: `statesSizeSlice = [1,nS]`,
+`inputsSizeSlice = [1,nI,T]`, `cellInputsShape = [nI,T]`, `outputSizeSlice = [1,1,T]`, `outputStepSlice = [1,1,1]`
+(`inputLen = T` is taken from the INPUTS, also for the output views). -/
+theorem runDims_roots {inputs states outputs : Arr} {nIn nI T N nS M nO T' : Int}
+    (hi : inputs.v = rootView [nIn, nI, T] 0) (hs : states.v = rootView [N, nS] 0)
+    (ho : outputs.v = rootView [M, nO, T'] 0) :
+    runDims inputs states outputs = .ok
+      { numCells := N, numStates := nS, numInputSequences := nIn, inputLen := T, cellInputsShape := [nI, T],
+        outputStepSlice := [1, 1, 1], outputSizeSlice := [1, 1, T], statesSizeSlice := [1, nS],
+        inputsSizeSlice := [1, nI, T] } := by
+  simp [runDims, View.len, hi, hs, ho, rootView, setAt, View.newIndex, View.ndims, uniform, bind, Except.bind, pure,
+    Except.pure]
+
+/-- **template_views.** With the vectors of `runDims` and the per-goroutine position vectors
+(`X.NewIndex(0)` with the cell / output number stored into it), the views the template builds are the ones the
+theorems above are about. -/
+theorem template_views {h : Heap α} {inputs states outputs : Arr} {nIn nI T N nS M nO T' : Int} {rd : RunDims}
+    (hi : inputs.v = rootView [nIn, nI, T] 0) (hs : states.v = rootView [N, nS] 0)
+    (ho : outputs.v = rootView [M, nO, T'] 0) (hrd : runDims inputs states outputs = .ok rd) (i k o : Int) :
+    tplStateView h states rd i = stateView h states i nS ∧
+    tplInputView h inputs rd i k = inputView h inputs i k nIn nI T ∧
+    tplOutputView h outputs rd i o = outputView h outputs i o T := by
+  rw [runDims_roots hi hs ho] at hrd
+  injection hrd with hrd
+  subst hrd
+  refine ⟨?_, ?_, ?_⟩
+  · simp [tplStateView, stateView, setAt, View.newIndex, View.ndims, hs, rootView, uniform, bind, Except.bind]
+  · unfold tplInputView inputView cellInputs inputOf goMod
+    by_cases h0 : nIn = 0
+    · simp [h0, bind, Except.bind]
+    · simp [h0, setAt, View.newIndex, View.ndims, hi, rootView, uniform, bind, Except.bind, pure, Except.pure]
+      generalize slice inputs [i.tmod nIn, 0, 0] [1, nI, T] none = e
+      cases e <;> rfl
+  · simp [tplOutputView, outputView, setAt, View.newIndex, View.ndims, ho, rootView, uniform, bind, Except.bind,
+      pure, Except.pure]
+
+end
+
+/-! ### T6 — one cell step through the views is `cellStep` of the list-level semantics -/
+
+section Refine
+variable {α : Type} [Num α]
+
+/-- **wrapperNd_refines** (specs with scalar parameters only). Root arrays `parameters [rows, nSets]`,
+`inputs [nIn, nI, T]`, `states [N, nS]`, `outputs [M, nO, T']` (`T ≤ T'`, oversized allowed) on storages `pst, ist, sst,
+ost`, states and outputs in different storages; a cell `i < N`, `i < M`; a model with `nP ≤ rows` scalar parameters
+(rows `0 … nP-1`) and ANY kernel function `km.run` on lists whose results fit the arrays (at most `nO` series of at most
+`T` values, at most `nS` states — otherwise the Go code panics where the list-level `overwrite` truncates).
+Let `paramsL`, `inputsL`, `st`, `orow` be the row-major list denotations of the storages (`mat`/`cube`/`rowAt` =
+`chunks`, `mat_eq_chunks`). Then the goroutine body on the template's views (`cellStepNd`: decode the parameters through
+the `ApplyParameters` views, read the states and the input series through the state/input views, run the kernel, write
+the series through the output views and the states through the state view):
+* fails with the same error whenever `OW.Sim.cellStep` fails (only the kernel can);
+* otherwise does not panic, keeps the heap's shape, and the resulting heap holds exactly `cellStep`'s result: state
+  row `i` is `s'`, output rows `(i, o, ·)` are `o'[o]` (all `T'` positions: the first `T` written, the rest as
+  before), and every other cell of every storage — other cells' rows, rows `≥ N`, inputs, parameters — is unchanged. -/
+theorem wrapperNd_refines (km : KModel α) {h : Heap α} {parameters inputs states outputs : Arr}
+    {rows nSets nIn nI T N nS M nO T' nP i pb ib sb ob : Nat} {pst ist sst ost : List α}
+    (rp : RootOn h parameters [(rows : Int), (nSets : Int)])
+    (ri : RootOn h inputs [(nIn : Int), (nI : Int), (T : Int)])
+    (rs : RootOn h states [(N : Int), (nS : Int)])
+    (ro : RootOn h outputs [(M : Int), (nO : Int), (T' : Int)])
+    (hpb : parameters.base = (pb : Int)) (hib : inputs.base = (ib : Int)) (hsb : states.base = (sb : Int))
+    (hob : outputs.base = (ob : Int))
+    (hp : h[parameters.sid]? = some pst) (hi : h[inputs.sid]? = some ist)
+    (hs : h[states.sid]? = some sst) (ho : h[outputs.sid]? = some ost)
+    (hso : states.sid ≠ outputs.sid)
+    (hnP : nP ≤ rows) (hiN : i < N) (hiM : i < M) (hT : T ≤ T')
+    {rd : RunDims} (hrd : runDims inputs states outputs = .ok rd)
+    (hK : ∀ p ins st r, km.run p ins st = .ok r →
+      r.outputs.length ≤ nO ∧ (∀ ser ∈ r.outputs, ser.length ≤ T) ∧ r.states.length ≤ nS) :
+    (∀ e, cellStep km (List.replicate nP none) ((List.range nP).map fun j => (j, 1)) (mat pst pb rows nSets)
+          (cube ist ib nIn nI T) i (rowAt sst (sb + i * nS) nS) (mat ost (ob + i * (nO * T')) nO T') = .error e →
+        cellStepNd km.run nP nI h parameters inputs states outputs rd (i : Int) = .error e) ∧
+    (∀ s' o', cellStep km (List.replicate nP none) ((List.range nP).map fun j => (j, 1)) (mat pst pb rows nSets)
+          (cube ist ib nIn nI T) i (rowAt sst (sb + i * nS) nS) (mat ost (ob + i * (nO * T')) nO T') = .ok (s', o') →
+      ∃ h', cellStepNd km.run nP nI h parameters inputs states outputs rd (i : Int) = .ok h' ∧ SameShape h h' ∧
+        (∀ s, s < nS → cell h' states.sid (sb + i * nS + s) = s'[s]?) ∧
+        (∀ o t, o < nO → t < T' → cell h' outputs.sid (ob + (i * nO + o) * T' + t) = (o'[o]?).bind (·[t]?)) ∧
+        (∀ u q, ¬ (u = states.sid ∧ ∃ s, s < nS ∧ q = sb + i * nS + s) →
+                ¬ (u = outputs.sid ∧ ∃ o t, o < nO ∧ t < T' ∧ q = ob + (i * nO + o) * T' + t) →
+                cell h' u q = cell h u q)) := by
+  -- the numbers of the preamble
+  rw [runDims_roots ri.view rs.view ro.view] at hrd
+  injection hrd with hrd
+  subst hrd
+  obtain ⟨_, _, hT0⟩ := pos3 ri.pos
+  have hT0' : 1 ≤ T := by omega
+  -- read side
+  obtain ⟨hpar, hpick⟩ := params_refine (i := i) rp hpb hp hnP
+  have hcp := C04.cellParams_scalar nP (mat pst pb rows nSets) i hpick
+  obtain ⟨hsv, rsv, hread, hsfit⟩ := state_read_refine rs hsb hs hiN
+  obtain ⟨hins, hblock⟩ := inputs_refine (i := i) ri hib hi
+  -- both sides up to the kernel call
+  have hL : cellStep km (List.replicate nP none) ((List.range nP).map fun j => (j, 1)) (mat pst pb rows nSets)
+      (cube ist ib nIn nI T) i (rowAt sst (sb + i * nS) nS) (mat ost (ob + i * (nO * T')) nO T') =
+      (do let r ← km.run ((List.range nP).filterMap (C04.pick (mat pst pb rows nSets) i))
+              (mat ist (ib + (i % nIn) * (nI * T)) nI T) (rowAt sst (sb + i * nS) nS)
+          pure (overwrite (rowAt sst (sb + i * nS) nS) r.states,
+            ((mat ost (ob + i * (nO * T')) nO T').zip (r.outputs ++ List.replicate
+              ((mat ost (ob + i * (nO * T')) nO T').length - r.outputs.length) [])).map
+              fun (p : List α × List α) => overwrite p.1 p.2)) := by
+    unfold cellStep
+    simp only [hcp, hblock, bind, Except.bind]
+  have hR : cellStepNd km.run nP nI h parameters inputs states outputs
+      { numCells := N, numStates := nS, numInputSequences := nIn, inputLen := T, cellInputsShape := [(nI : Int), (T : Int)],
+        outputStepSlice := [1, 1, 1], outputSizeSlice := [1, 1, (T : Int)], statesSizeSlice := [1, (nS : Int)],
+        inputsSizeSlice := [1, (nI : Int), (T : Int)] } (i : Int) =
+      (do let r ← km.run ((List.range nP).filterMap (C04.pick (mat pst pb rows nSets) i))
+              (mat ist (ib + (i % nIn) * (nI * T)) nI T) (rowAt sst (sb + i * nS) nS)
+          let h3 ← writeOutputs h outputs (i : Int) (T : Int) 0 r.outputs
+          writeView h3 (flat states.sid ((sb + i * nS : Nat) : Int) (nS : Int)) r.states) := by
+    have hins' := hins
+    simp only [bind, Except.bind] at hins'
+    unfold cellStepNd
+    simp only [hpar, hsv, hread, hins', bind, Except.bind]
+  rw [hL, hR]
+  cases hk : km.run ((List.range nP).filterMap (C04.pick (mat pst pb rows nSets) i))
+      (mat ist (ib + (i % nIn) * (nI * T)) nI T) (rowAt sst (sb + i * nS) nS) with
+  | error e0 =>
+    refine ⟨fun e he => ?_, fun s' o' he => ?_⟩
+    · simp only [bind, Except.bind] at he ⊢
+      cases he; rfl
+    · simp [bind, Except.bind] at he
+  | ok r =>
+    obtain ⟨hko, hkl, hks⟩ := hK _ _ _ _ hk
+    refine ⟨fun e he => by simp [bind, Except.bind, pure, Except.pure] at he, fun s' o' he => ?_⟩
+    simp only [bind, Except.bind, pure, Except.pure, Except.ok.injEq, Prod.mk.injEq] at he
+    obtain ⟨hs', ho'⟩ := he
+    -- write side
+    obtain ⟨h3, hw3, hss3, hin3, hout3⟩ := writeOutputs_spec hob hiM hT0' hT r.outputs 0 h ro (by omega) hkl
+    have rsv3 := rsv.sameShape hss3
+    obtain ⟨hw4, hss4⟩ := writeView_flat rsv3 r.states (by omega)
+    simp only [Int.toNat_natCast] at hw4 hss4
+    refine ⟨_, ?_, hss3.trans hss4, fun s s1 => ?_, fun o t o1 t1 => ?_, fun u q hns hno => ?_⟩
+    · simp only [bind, Except.bind]
+      have : ((0 : Nat) : Int) = 0 := rfl
+      rw [← this, hw3]
+      exact hw4
+    · -- state row
+      have hrl : (rowAt sst (sb + i * nS) nS).length = nS := rowAt_length hsfit
+      rw [cell_writeRun, ← hs', overwrite_getElem? _ _ _ (by rw [hrl]; exact s1), rowAt_getElem? _ _ _ _ s1]
+      have h3c : cell h3 states.sid (sb + i * nS + s) = sst[sb + i * nS + s]? := by
+        rw [hout3 _ _ (Or.inl hso)]; simp [cell, hs]
+      have hsome : sb + i * nS + s < sst.length := by omega
+      by_cases hsl : s < r.states.length
+      · rw [if_pos ⟨rfl, by omega, by omega⟩, if_pos hsl, h3c, List.getElem?_eq_getElem hsome]
+        simp
+      · rw [if_neg (by omega), if_neg hsl, h3c]
+    · -- output rows
+      rw [cell_writeRun, if_neg (by intro c; exact hso c.1.symm), hin3 o t o1 t1, ← ho']
+      have hol : (mat ost (ob + i * (nO * T')) nO T').length = nO := mat_length _ _ _ _
+      have hfit := ro.row_fits3 hob ho hiM o1
+      rw [newO_getElem? _ _ o (by rw [hol]; exact o1) (by rw [hol]; exact hko)]
+      have hrow : (mat ost (ob + i * (nO * T')) nO T')[o]'(by rw [hol]; exact o1) =
+          rowAt ost (ob + (i * nO + o) * T') T' := by
+        have := mat_getElem? ost (ob + i * (nO * T')) nO T' o o1
+        rw [List.getElem?_eq_getElem (by rw [hol]; exact o1)] at this
+        injection this with this
+        rw [this]; congr 1; ring
+      simp only [Option.bind_some]
+      rw [hrow, overwrite_getElem? _ _ _ (by rw [rowAt_length hfit]; exact t1), rowAt_getElem? _ _ _ _ t1]
+      have hcell : cell h outputs.sid (ob + (i * nO + o) * T' + t) = ost[ob + (i * nO + o) * T' + t]? := by
+        simp [cell, ho]
+      rw [hcell]
+      unfold outVal
+      simp only [Nat.zero_le, if_true, Nat.sub_zero]
+      cases hro : r.outputs[o]? with
+      | none => simp
+      | some ser =>
+        simp only [Option.getD_some, Option.bind_some]
+        by_cases htl : t < ser.length
+        · rw [if_pos htl, List.getElem?_eq_getElem htl]; simp
+        · rw [if_neg htl, List.getElem?_eq_none (by omega)]; simp
+    · -- frame
+      rw [cell_writeRun, if_neg, hout3]
+      · by_cases hu : u = outputs.sid
+        · right; intro o t o1 t1 hq
+          exact hno ⟨hu, o, t, o1, t1, hq⟩
+        · exact Or.inl hu
+      · rintro ⟨hu, hq1, hq2⟩
+        exact hns ⟨hu, q - (sb + i * nS), by omega, by omega⟩
+
+end Refine
+
+section
+variable {α : Type}
+
+/-! ### the lemma DESIGN §6 C03 asks for: every reshape of the template is applied to a contiguous view -/
+
+/-- **reshapes_on_contiguous_views.** On root arrays (any extents ≥ 1, oversized outputs allowed), for every cell,
+input, output and parameter row in range, EVERY view the template passes to `MustReshape` — the state row, the input
+block, the input series inside the reshaped block, the output series, a scalar parameter row, a table parameter's rows —
+is contiguous. So (C02 `reshape_spec`) each of these reshapes aliases the storage of the array it was sliced from
+(Go back-end: re-based `Impl`; C back-end: root view from `Start`), never copies, and the non-contiguous-C-view defect
+of `Reshape` (D3) is not reachable from the wrappers. -/
+theorem reshapes_on_contiguous_views {h : Heap α} {parameters inputs states outputs : Arr}
+    {rows nSets nIn nI T N nS M nO T' : Int}
+    (rp : RootOn h parameters [rows, nSets]) (ri : RootOn h inputs [nIn, nI, T]) (rs : RootOn h states [N, nS])
+    (ro : RootOn h outputs [M, nO, T']) (hT : T ≤ T') {i : Int} (hi0 : 0 ≤ i) (hiN : i < N) (hiM : i < M) :
+    (sliceView states.v [i, 0] [1, nS] none).contiguous = .ok true ∧
+    (sliceView inputs.v [i % nIn, 0, 0] [1, nI, T] none).contiguous = .ok true ∧
+    (∀ k, 0 ≤ k → k < nI → (sliceView (rootView [nI, T] 0) [k, 0] [1, T] none).contiguous = .ok true) ∧
+    (∀ o, 0 ≤ o → o < nO → (sliceView outputs.v [i, o, 0] [1, 1, T] (some [1, 1, 1])).contiguous = .ok true) ∧
+    (∀ row, 0 ≤ row → row < rows → (sliceView parameters.v [row, 0] [1, nSets] none).contiguous = .ok true) ∧
+    (∀ row maxLen, 0 ≤ row → 1 ≤ maxLen → row + maxLen ≤ rows →
+      (sliceView parameters.v [row, 0] [1 * maxLen, nSets] none).contiguous = .ok true) := by
+  obtain ⟨_, _, hT0⟩ := pos3 ri.pos
+  obtain ⟨_, h2, rci⟩ := cellInputs_eq ri hi0
+  exact ⟨(stateView_eq rs hi0 hiN).2.1, h2, fun k k0 k1 => (inputOf_eq rci k0 k1).2.1,
+    fun o o0 o1 => (outputView_eq ro hi0 hiM o0 o1 hT0 hT).2.1,
+    fun row r0 r1 => (paramView_scalar_eq rp r0 r1).2.1,
+    fun row maxLen r0 m1 r1 => (paramView_table_eq rp r0 m1 r1).2.1⟩
+
+/-! ## Non-vacuity: parameters 3×2, inputs 2×2×3, states 3×2, outputs 4×1×5 (oversized: 4 > 3 cells, 5 > 3 steps) -/
+namespace Ex
+
+/-- storage 0: parameters `[[10,11],[20,21],[30,31]]`; storage 1: inputs `100 … 111`; storage 2: states `1 … 6`;
+storage 3: outputs, 20 sentinels `-1` -/
+def heap : Heap Int :=
+  [[10, 11, 20, 21, 30, 31], (List.range 12).map (fun k => 100 + Int.ofNat k), [1, 2, 3, 4, 5, 6], List.replicate 20 (-1)]
+def pA : Arr := rootArr 0 [3, 2] 6
+def iA : Arr := rootArr 1 [2, 2, 3] 12
+def sA : Arr := rootArr 2 [3, 2] 6
+def oA : Arr := rootArr 3 [4, 1, 5] 20
+
+-- the arrays are what the constructor returns, and they satisfy the hypotheses of the theorems
+example : fromStore heap 0 [3, 2] = .ok pA ∧ fromStore heap 1 [2, 2, 3] = .ok iA ∧ fromStore heap 2 [3, 2] = .ok sA ∧
+    fromStore heap 3 [4, 1, 5] = .ok oA := by decide
+theorem rp : RootOn heap pA [3, 2] := (rootOn_rootArr (st := heap[0]) (by simp) (by simp [Pos]) rfl (by decide)).2
+theorem ri : RootOn heap iA [2, 2, 3] := (rootOn_rootArr (st := heap[1]) (by simp) (by simp [Pos]) rfl (by decide)).2
+theorem rs : RootOn heap sA [3, 2] := (rootOn_rootArr (st := heap[2]) (by simp) (by simp [Pos]) rfl (by decide)).2
+theorem ro : RootOn heap oA [4, 1, 5] := (rootOn_rootArr (st := heap[3]) (by simp) (by simp [Pos]) rfl (by decide)).2
+
+-- the preamble of `Run`, and the template's views = the explicit ones
+example : runDims iA sA oA = .ok ⟨3, 2, 2, 3, [2, 3], [1, 1, 1], [1, 1, 3], [1, 2], [1, 2, 3]⟩ := by decide
+example : (do let rd ← runDims iA sA oA; tplStateView heap sA rd 2) = stateView heap sA 2 2 ∧
+    (do let rd ← runDims iA sA oA; tplInputView heap iA rd 3 1) = inputView heap iA 3 1 2 2 3 ∧
+    (do let rd ← runDims iA sA oA; tplOutputView heap oA rd 2 0) = outputView heap oA 2 0 3 := by decide
+
+-- T2 on cell 2: the state view is the window [4, 6) of storage 2; `Set1(1, 99)` changes exactly position 5
+example : stateView heap sA 2 2 = .ok (heap, flat 2 4 2) := by decide
+example := cell_views_states rs (i := 2) (by decide) (by decide)
+example : (do let (h1, sv) ← stateView heap sA 2 2; readView h1 sv) = .ok [5, 6] := by decide
+example : (do let (h1, sv) ← stateView heap sA 2 2; set1 h1 sv 1 99) =
+    .ok [heap[0], heap[1], [1, 2, 3, 4, 5, 99], heap[3]] := by decide
+example : (do let (h1, sv) ← stateView heap sA 2 2; set1 h1 sv 2 99) = .error "index-out-of-range" := by decide
+
+-- T1 on cell 3 (block 3 % 2 = 1), input 1: the window [9, 12) of storage 1 = inputs[1, 1, ·]
+example : inputView heap iA 3 1 2 2 3 = .ok (heap, flat 1 9 3) := by decide
+example := cell_views_inputs ri (i := 3) (k := 1) (by decide) (by decide) (by decide)
+example : (do let (h1, v) ← inputView heap iA 3 1 2 2 3; readView h1 v) = .ok [109, 110, 111] ∧
+    (do let (h1, v) ← inputView heap iA 3 1 2 2 3; unrollVals h1 v) = .ok [109, 110, 111] ∧
+    [Nd.get heap iA [1, 1, 0], Nd.get heap iA [1, 1, 1], Nd.get heap iA [1, 1, 2]] = [.ok 109, .ok 110, .ok 111] := by
+  decide
+
+-- T3 on cell 2, output 0, T = 3 < T' = 5: the window [10, 13) of storage 3; a kernel writing the series changes
+-- exactly positions 10, 11, 12 — timesteps 3, 4 of the row and row 3 (no cell) keep their sentinels
+example : outputView heap oA 2 0 3 = .ok (heap, flat 3 10 3) := by decide
+example := cell_views_outputs ro (i := 2) (o := 0) (T := 3) (by decide) (by decide) (by decide) (by decide) (by decide)
+  (by decide)
+example : (do let (h1, ov) ← outputView heap oA 2 0 3; writeView h1 ov [7, 8, 9]) =
+    .ok [heap[0], heap[1], heap[2],
+      [-1, -1, -1, -1, -1,  -1, -1, -1, -1, -1,  7, 8, 9, -1, -1,  -1, -1, -1, -1, -1]] := by decide
+example : (do let (h1, ov) ← outputView heap oA 2 0 3; set1 h1 ov 3 99) = .error "index-out-of-range" := by decide
+
+-- T4: scalar parameter in row 1 for cell 3 is parameters[1, 3 % 2] = 21; a table parameter in rows 1..2
+-- (maxLen = 2) for cell 3 with own length 2 is column 1: [21, 31]; with own length 1: [21]
+example : scalarParam heap pA 1 3 = .ok 21 := by decide
+example := param_decoding_scalar rp (row := 1) (i := 3) (by decide) (by decide) (by decide)
+example : (do let (h1, t) ← tableParam heap pA 1 2 2 3; readTable h1 t 2) = .ok [21, 31] ∧
+    (do let (h1, t) ← tableParam heap pA 1 2 1 3; readTable h1 t 1) = .ok [21] ∧
+    (do let (_, t) ← tableParam heap pA 1 2 2 3; t.v.len 0) = .ok 2 := by decide
+example := param_decoding_table rp (row := 1) (maxLen := 2) (ownLen := 2) (i := 3) (by decide) (by decide) (by decide)
+  (by decide) (by decide)
+/-- the table view is not a view of the `Reach` vocabulary (rank-1 extents, rank-2 strides) -/
+example : (do let (_, t) ← tableParam heap pA 1 2 2 3; pure t.v) =
+    .ok ⟨[2, 2], [2], 1, [2, 1], [1, 1], [2, 1]⟩ := by decide
+
+-- T5: footprints of cells 0 and 2
+example := views_disjoint (states := sA) (outputs := oA) (parameters := pA) (inputs := iA) (nS := 2) (nO := 1) (T' := 5)
+  (i := 0) (j := 2) (by decide) (by decide) (by decide) (by decide) (by decide) (by decide) (by decide) (by decide)
+  (by decide) (by decide) (by decide) (by decide) (by decide)
+
+-- every reshape is on a contiguous view
+example := reshapes_on_contiguous_views rp ri rs ro (i := 2) (by decide) (by decide) (by decide) (by decide)
+
+/-- a toy kernel: the output series is the first input series plus the first parameter; the new states are the old
+ones swapped -/
+def toyKernel (p : List Int) (ins : List (List Int)) (st : List Int) : KRes Int :=
+  .ok { outputs := [(ins.headD []).map (· + p.headD 0)], states := st.reverse }
+
+-- one whole cell step (cell 2: block 0, parameter set 0) through the views: output row (2,0,·) gets the series in
+-- its first 3 positions, state row 2 is swapped, nothing else changes
+example : (do let rd ← runDims iA sA oA; cellStepNd toyKernel 3 2 heap pA iA sA oA rd 2) =
+    .ok [heap[0], heap[1], [1, 2, 3, 4, 6, 5],
+      [-1, -1, -1, -1, -1,  -1, -1, -1, -1, -1,  110, 111, 112, -1, -1,  -1, -1, -1, -1, -1]] := by decide
+
+/-! ### observations on the template's view algebra (hypotheses that are needed; a dead branch that is wrong) -/
+
+/-- `T ≤ T'` is needed (the template takes `inputLen` from the INPUTS and `Slice` checks no bounds): with outputs
+`3×1×2` and series length 3, the output views of cells 0 and 1 are the windows `[0,3)` and `[2,5)` of the same storage —
+they OVERLAP at position 2 (no panic; `Contiguous()` is true, the reshape aliases across the row boundary), and only
+the last cell panics (slice bounds). -/
+example : let hO : Heap Int := [List.replicate 6 0]
+    let o32 : Arr := rootArr 0 [3, 1, 2] 6
+    outputView hO o32 0 0 3 = .ok (hO, flat 0 0 3) ∧ outputView hO o32 1 0 3 = .ok (hO, flat 0 2 3) ∧
+    outputView hO o32 2 0 3 = .error "index-out-of-range" := by decide
+
+/-- The template's write-back of packed states (`GR4J`, `Lag`) passes the STEP vector `[0,1]`
+(`states.ApplySlice([]int{i,0}, []int{0,1}, pack(…))`): a zero step, outside the `SliceOK` vocabulary of C01 (steps ≥ 1).
+It is harmless only because the packed array has extent 1 on that axis — same result as step `[1,1]`. -/
+example : let hS : Heap Int := [[1, 2, 3, 4, 5, 6], [70, 80]]
+    let packed : Arr := rootArr 1 [1, 2] 2
+    applySlice hS (rootArr 0 [3, 2] 6) [2, 0] (some [0, 1]) packed = .ok [[1, 2, 3, 4, 70, 80], [70, 80]] ∧
+    applySlice hS (rootArr 0 [3, 2] 6) [2, 0] (some [0, 1]) packed =
+      applySlice hS (rootArr 0 [3, 2] 6) [2, 0] (some [1, 1]) packed := by decide
+
+/-- The branch of the template for kernels that RETURN their outputs (`PassOutputsAsParams = false`; used by none of
+the 41 catalogued models) reshapes a series to `[1, len, 1]` and `ApplySlice`s it at `[i, o, 0]`: with the dimension
+order `[cell, output, timestep]` that writes along the OUTPUT axis (positions `0, 3, 6` of a `2×2×3` array — the third in
+the next cell's rows), not along the timestep axis (`[1, 1, len]`: positions `0, 1, 2`). -/
+example : let hO : Heap Int := [List.replicate 12 0, [7, 8, 9]]
+    let o223 : Arr := rootArr 0 [2, 2, 3] 12
+    applySlice hO o223 [0, 0, 0] (some [1, 1, 1]) (rootArr 1 [1, 3, 1] 3) =
+      .ok [[7, 0, 0, 8, 0, 0, 9, 0, 0, 0, 0, 0], [7, 8, 9]] ∧
+    applySlice hO o223 [0, 0, 0] (some [1, 1, 1]) (rootArr 1 [1, 1, 3] 3) =
+      .ok [[7, 8, 9, 0, 0, 0, 0, 0, 0, 0, 0, 0], [7, 8, 9]] := by decide
+
+end Ex
 
 end
 end OW.Props.C04Nd
